@@ -9,7 +9,9 @@ REG.schema('Payload', module='payload', fields=dict(packets=List(Ref('Packet')))
 
 RecF = lambda **kw: Ty('recf', *sorted(kw.items()))     # noqa: E731  record-valued field
 
-REG.schema('Queue', fields=dict(items=List(ANY), unf=INT))
+REG.schema('Queue', fields=dict(items=List(Ref('Packet', True)), unf=INT,
+                                accepted=List(Ref('Packet')), taken=List(Ref('Packet')),
+                                put_none=INT, taken_none=INT))
 REG.schema('BaseSocket', module='base_socket', fields=dict(
     server=Ref('BaseServer'), sid=STR, queue=Ref('Queue'), last_ping=ANY, connected=BOOL,
     upgrading=BOOL, upgraded=BOOL, closing=BOOL, closed=BOOL, session=ANY))
@@ -44,3 +46,9 @@ HEADERS = List(SS_T)
 RESP = Ty('rec', ('headers', HEADERS), ('response', BYTES), ('status', STR))
 REG.ghost('sr_log', List(STR))        # status lines passed to start_response (this request)
 REG.ghost('sr_headers', HEADERS)      # header list of the last start_response call
+
+from pyvc.lib_rt import EV_T, SP_T  # noqa: E402
+REG.ghost('events', List(EV_T))       # application-handler invocations, in order
+REG.ghost('spawned', List(SP_T))      # background tasks started, in order
+REG.ghost('now', REAL)                # ghost clock (time.time())
+REG.ghost('reads', List(INT))         # sizes passed to wsgi.input.read
